@@ -282,7 +282,12 @@ def abstract(gfa):
                     compl = (lk.from_segment is b.line and lk.from_orient == gtext.inv(b.orient) and
                              lk.to_segment is a.line and lk.to_orient == gtext.inv(a.orient))
                     if direct and compl:
-                        ok = True     # self-complementary pair: either flag is right
+                        # a link from an end to the same end matches in both forms: forwards if the written
+                        # overlap fits (or is unspecified), reversed if only the complement overlap fits
+                        ovs = list(p.overlaps)
+                        pov = ovs[i] if (len(ovs) > i and not (len(ovs) == 1 and not ovs[0])) else None
+                        fits = (not lk.overlap) or (not pov) or str(lk.overlap) == str(pov)
+                        ok = (ol.orient == ("+" if fits else "-"))
                     elif direct:
                         ok = (ol.orient == "+")
                     elif compl:
